@@ -96,8 +96,27 @@ def check_state(st, model, hist_names):
                     st.violation("format-warning-for-nonstring", "after %s: %s format=%r non-string %r produced a format warning" % (hist_names, kname, name, v), case, rank=len(hist_names))
 
 
+def persistent_elements():
+    class Holder(Object):
+        s = Property(String(format="x-custom"))
+
+    return {
+        "String(x-custom)": (String(format="x-custom"), "x-custom", lambda v: v),
+        "Element(uuid)": (Element(format="uuid"), "uuid", lambda v: v),
+        "String(x-unregistered)": (String(format="x-unregistered"), "x-unregistered", lambda v: v),
+        "model.s(x-custom)": (Holder, "x-custom", lambda v: {"s": v}),
+        "parsed(date-time)": (parse_element({"type": "string", "format": "date-time"}), "date-time", lambda v: v),
+    }
+
+
 def registry_ops():
     ops = []
+    for label in sorted(persistent_elements()):
+        def apply(live, label=label):
+            el, name, wrap = live["elements"][label]
+            call(el, wrap("abc"))
+
+        ops.append(history.Op("validate long-lived %s with 'abc'" % label, apply))
     for name in NAMES:
         for pname, pred in PREDS.items():
             def apply(live, name=name, pred=pred):
@@ -116,16 +135,27 @@ def run_registry(st, first, depth):
     def build():
         format_checker._callable_register.clear()
         format_checker._callable_register.update(_PRISTINE)
-        return format_checker, {k: ("builtin", v) for k, v in _PRISTINE.items()}
+        return {"registry": format_checker, "elements": persistent_elements()}, {k: ("builtin", v) for k, v in _PRISTINE.items()}
 
     def key(live, ref):
-        return tuple(sorted((k, v[0]) for k, v in ref.items())) + tuple(sorted(live._callable_register))
+        return (tuple(sorted((k, v[0]) for k, v in ref.items())), tuple(sorted(live["registry"]._callable_register)), tuple(impl.snapshot(e[0]) for _, e in sorted(live["elements"].items())))
 
     def check(live, ref, hist):
         names = [ops[i].name for i in hist]
-        if set(live._callable_register) != set(ref):
-            st.violation("registry-keys-differ", "after %s registry holds %s, model %s" % (names, sorted(live._callable_register), sorted(ref)), {"history": names})
+        if set(live["registry"]._callable_register) != set(ref):
+            st.violation("registry-keys-differ", "after %s registry holds %s, model %s" % (names, sorted(live["registry"]._callable_register), sorted(ref)), {"history": names})
         check_state(st, ref, names)
+        # elements that already validated under earlier registry states must follow the CURRENT registry as well
+        for label, (el, name, wrap) in sorted(live["elements"].items()):
+            for v in ("abc", "ABC", "2020-02-29T23:59:59Z"):
+                kind, nwarn = call(el, wrap(v))
+                st.add("evaluations")
+                if name in ref:
+                    want, want_warn = ("ACCEPT" if ref[name][1](v) else "REJECT"), 0
+                else:
+                    want, want_warn = "ACCEPT", 1
+                if kind != want or nwarn != want_warn:
+                    st.violation("format-stale-on-long-lived-element", "after %s: long-lived %s value %r -> %s (%d warnings), current registry says %s (%d)" % (names, label, v, kind, nwarn, want, want_warn), {"history": names, "element": label, "value": v, "observed": kind, "expected": want}, rank=len(names))
         st.add("traces")
         st.add("nontrivial")
         st.outcome("registry-state")
@@ -257,13 +287,12 @@ def replay(case):
     if "history" in case:
         ops = registry_ops()
         names = [o.name for o in ops]
-        model = {k: ("builtin", v) for k, v in _PRISTINE.items()}
+        for f in range(len(ops)):
+            if names[f] == case["history"][0]:
+                run_registry(st, f, len(case["history"]))
+        model = None
         try:
-            for n in case["history"]:
-                i = names.index(n)
-                ops[i].apply(None)
-                ops[i].model(model)
-            check_state(st, model, case["history"])
+            pass
         finally:
             format_checker._callable_register.clear()
             format_checker._callable_register.update(_PRISTINE)
